@@ -72,12 +72,19 @@ type c02Case struct {
 	Cause int `json:"cause,omitempty"`
 	// Real: run over the real net/http stack (HTTP/1.1 or TLS HTTP/2 per Cfg.HTTP) instead of memhttp.
 	Real bool `json:"real,omitempty"`
+	// Window: the transport takes only this many bytes of the request beyond
+	// what the handler has read (0 = everything): with a handler that fails
+	// without reading, the client's Send is interrupted in mid-message.
+	Window int `json:"window,omitempty"`
 }
 
 func (k c02Case) key() string {
 	real := ""
 	if k.Real {
 		real = "/real"
+	}
+	if k.Window > 0 {
+		real += fmt.Sprintf("/window%d", k.Window)
 	}
 	return fmt.Sprintf("%s/code%d/msg%d/det%d/meta%d/sent%d/icept=%v/cause%d%s", k.Cfg, k.Code, k.Msg, k.Details, k.Meta, k.Sent, k.ByIcept, k.Cause, real)
 }
@@ -155,7 +162,15 @@ func c02Check(c *ev.Collector, k c02Case) {
 	if k.ByIcept {
 		opts = append(opts, connect.WithInterceptors(errI{want}))
 	}
+	var tr *memhttp.Transport
 	h := NewHandler(k.Cfg.Kind, func(ctx context.Context, s HStream) error {
+		if k.Window > 0 && k.Cfg.Kind.ClientStreams() {
+			// fail only once the transport has taken its window's worth of the
+			// message the client is sending (nobody reads it here)
+			if ex := tr.Last(); ex != nil {
+				<-ex.WindowFull
+			}
+		}
 		for i := 0; i < k.Sent; i++ {
 			if err := s.Send(&BV{Value: []byte{'h', byte(i)}}); err != nil {
 				return err
@@ -166,7 +181,7 @@ func c02Check(c *ev.Collector, k c02Case) {
 		}
 		return want
 	}, append(opts, k.Cfg.HandlerOptions()...)...)
-	tr := &memhttp.Transport{Handler: h, Proto: k.Cfg.HTTP, SyncCloseReq: true}
+	tr = &memhttp.Transport{Handler: h, Proto: k.Cfg.HTTP, SyncCloseReq: true, ReqWindow: k.Window}
 	var res CallResult
 	var g GuardResult
 	realStatus := 0
@@ -308,10 +323,10 @@ func c02Cases(thorough bool) []c02Case {
 								for meta := range c02Metas {
 									for _, sent := range sents {
 										for _, ic := range []bool{false, true} {
-											out = append(out, c02Case{cfg, code, msg, det, meta, sent, ic, 0, false})
+											out = append(out, c02Case{cfg, code, msg, det, meta, sent, ic, 0, false, 0})
 											if code != 0 && msg < 3 && det < 2 {
 												for cause := 1; cause <= 3; cause++ {
-													out = append(out, c02Case{cfg, code, msg, det, meta, sent, ic, cause, false})
+													out = append(out, c02Case{cfg, code, msg, det, meta, sent, ic, cause, false, 0})
 												}
 											}
 										}
@@ -324,13 +339,13 @@ func c02Cases(thorough bool) []c02Case {
 				}
 				for code := 0; code <= 16; code++ {
 					for msg := range c02Messages {
-						out = append(out, c02Case{cfg, code, msg, 1, 1, 0, false, 0, false})
+						out = append(out, c02Case{cfg, code, msg, 1, 1, 0, false, 0, false, 0})
 					}
 					// coded errors whose cause chain ends in a context error or io.EOF keep their own code
 					if code != 0 {
 						for cause := 1; cause <= 3; cause++ {
 							for _, sent := range sents {
-								out = append(out, c02Case{cfg, code, 0, 1, 1, sent, false, cause, false})
+								out = append(out, c02Case{cfg, code, 0, 1, 1, sent, false, cause, false, 0})
 							}
 						}
 					}
@@ -339,10 +354,27 @@ func c02Cases(thorough bool) []c02Case {
 					for meta := range c02Metas {
 						for _, sent := range sents {
 							for _, ic := range []bool{false, true} {
-								out = append(out, c02Case{cfg, 10, 2, det, meta, sent, ic, 0, false})
+								out = append(out, c02Case{cfg, 10, 2, det, meta, sent, ic, 0, false, 0})
 							}
 						}
 					}
+				}
+			}
+		}
+	}
+	// the failure is raised before the request is read and reaches the client in the middle of its Send
+	for _, cfg := range []Cfg{} {
+		_ = cfg
+	}
+	for _, p := range AllProtos {
+		for _, kind := range AllKinds {
+			for _, ic := range []bool{false, true} {
+				for _, w := range []int{1, 3, 5, 7} {
+					cfg := Cfg{Proto: p, Comp: CompNone, Kind: kind, HTTP: 2}
+					if !cfg.Valid() {
+						continue
+					}
+					out = append(out, c02Case{Cfg: cfg, Code: 7, Msg: 1, Details: 1, Meta: 1, ByIcept: ic, Window: w})
 				}
 			}
 		}
